@@ -131,6 +131,7 @@ func propC14(c lcCase, o *hx.Obs) *hx.Failure {
 	// true while a search that does not end by itself may be running (sound for "may": set on every
 	// start that is not certainly rejected, cleared by stop / newgame, which wait for the end)
 	mayRunForever := false
+	resultThenStart := false
 	for i, op := range c.Ops {
 		if op.DelayMs > 0 {
 			time.Sleep(time.Duration(op.DelayMs) * time.Millisecond)
@@ -146,6 +147,24 @@ func propC14(c lcCase, o *hx.Obs) *hx.Failure {
 				return hung("IsSearching", i)
 			}
 			rec.definite = !isS
+			// every search accepted so far has delivered its result: from the controller's view nothing is
+			// running any more, so this start has to be accepted whatever IsSearching() says
+			if nres, _ := resultsCount(d); !rec.definite && !rec.rejected {
+				mu.Lock()
+				amb, acc := false, 0
+				for _, q := range searches {
+					if q.rejected {
+						continue
+					}
+					acc++
+					amb = amb || !q.definite
+				}
+				mu.Unlock()
+				if !amb && nres == acc {
+					rec.definite = true
+					resultThenStart = true
+				}
+			}
 			if _, rs, _ := d.Snapshot(); len(rs) > 0 && time.Since(rs[len(rs)-1].At) < 5*time.Millisecond {
 				quickRestart = true
 			}
@@ -344,6 +363,9 @@ func propC14(c lcCase, o *hx.Obs) *hx.Failure {
 	if startWhileRunning {
 		o.Label("start-while-running")
 	}
+	if resultThenStart {
+		o.Label("start-after-result-while-IsSearching-still-true")
+	}
 	if quickRestart {
 		o.Label("start-within-5ms-of-previous-result")
 	}
@@ -388,7 +410,7 @@ func genLcCase(t *rapid.T, maxOps int) lcCase {
 	c := lcCase{GoMaxProcs: rapid.SampledFrom([]int{1, 2, 4, 16}).Draw(t, "procs")}
 	if rapid.Bool().Draw(t, "hooks") {
 		c.HookDelays = map[string]int{}
-		for _, p := range []string{"start.pre", "run.begin", "timer.tick", "timer.fire", "run.end"} {
+		for _, p := range []string{"start.pre", "run.begin", "timer.tick", "timer.fire", "run.end", "result.sent"} {
 			if rapid.IntRange(0, 2).Draw(t, "d:"+p) == 0 {
 				c.HookDelays[p] = rapid.IntRange(0, 6000).Draw(t, "us:"+p)
 			}
